@@ -613,6 +613,11 @@ func (g *Gen) stmt(depth int) []Stmt {
 		2,                         // 28 float for
 		b2i(deep) * f.Meta,        // 29 index chain / concat-eq
 		b2i(deep) * f.Coroutines,  // 30 coroutine transfer matrix
+		b2i(deep) * (f.Closures / 2), // 31 closure scope edge cases
+		b2i(deep) * (f.Meta / 3),     // 32 protected metatable with nil
+		b2i(depth == 0 && g.loops == 0 && g.fnLevel == 0) * (f.Errors / 3), // 33 pcall at depth (top level only: quadratic)
+		b2i(deep) * (f.Coroutines / 3), // 34 go-function coroutine body
+		b2i(deep) * (f.Varargs / 3),  // 35 tail calls to vararg functions
 	}
 	switch g.R.Pick(w...) {
 	case 0:
@@ -710,8 +715,21 @@ func (g *Gen) stmt(depth int) []Stmt {
 			return g.indexChain(d)
 		}
 		return g.concatEqMeta(d)
-	default:
+	case 30:
 		return g.coTransfer(d)
+	case 31:
+		if g.R.Bool() {
+			return g.closeBeforeReturn(d)
+		}
+		return g.untilClosure(d)
+	case 32:
+		return g.protectNil(d)
+	case 33:
+		return g.pcallAtDepth(d)
+	case 34:
+		return g.goBodyCoroutine(d)
+	default:
+		return g.tailVararg(d)
 	}
 }
 
